@@ -106,12 +106,22 @@ def rearm(ctx: Any) -> List[Ob]:
         # the loop itself is reached whenever there is something to send: no path from the generation to the exit avoids the
         # loop except through a test of the generated list
         gnode = [n for n in scfg.nodes if any(call_name(c) == 'generate_service_query' for c in n.calls())]
-        byp = scfg.path_avoiding(gnode[0], lambda n: n is scfg.exit, lambda n: n is shead or (n.kind == 'test' and norm(n.ast) in gen_names)) if gnode else [None]
+        def list_test(n: Any) -> Optional[bool]:
+            """the edge on which the generated list is non-empty: `if outs:` -> True, `if not outs:` -> False"""
+            if n.kind != 'test' or n.ast is None:
+                return None
+            if norm(n.ast) in gen_names:
+                return True
+            if isinstance(n.ast, ast.UnaryOp) and isinstance(n.ast.op, ast.Not) and norm(n.ast.operand) in gen_names:
+                return False
+            return None
+
+        byp = scfg.path_avoiding(gnode[0], lambda n: n is scfg.exit, lambda n: n is shead or list_test(n) is not None) if gnode else [None]
         ok_s = ok_s and byp is None
         why_s += '' if byp is None else '; a path reaches the end without the send loop or a test of the generated list'
-        tests_s = [n for n in scfg.nodes if n.kind == 'test' and norm(n.ast) in gen_names]
-        ok_s = ok_s and all(scfg.only_through_edge(t_, True, shead) for t_ in tests_s)
-        why_s += '' if all(scfg.only_through_edge(t_, True, shead) for t_ in tests_s) else '; the send loop is not on the non-empty arm of the test'
+        tests_s = [n for n in scfg.nodes if list_test(n) is not None]
+        ok_s = ok_s and all(scfg.only_through_edge(t_, list_test(t_), shead) for t_ in tests_s)
+        why_s += '' if all(scfg.only_through_edge(t_, list_test(t_), shead) for t_ in tests_s) else '; the send loop is not on the non-empty arm of the test'
     obs.append(ob(R, sq, sloops[0] if sloops else 'for out in outs: self._zc.async_send(out, self._addr, self._port)', 'every generated query message is sent, to the browser\'s destination', ok_s, why_s))
     # the scheduler can only move a refresh query if it is told of the refresh: the record manager reports every live record
     from .c06 import pair_per_live_record
